@@ -105,11 +105,14 @@ pub fn run_case(case: &Case, out: &mut Out) {
                             Some(None) => out.viol(format!("real-reject encode-error p{}", op[1]), op[1].clone()),
                             Some(Some(b2)) => {
                                 nontrivial = true;
+                                let k = b2.iter().zip(msg_bytes.iter()).position(|(a, b)| a != b).unwrap_or(b2.len().min(msg_bytes.len()));
+                                let ctx = format!("first difference at byte {}: received …{} re-encoded …{}", k,
+                                    hex(&msg_bytes[k.saturating_sub(8)..(k + 12).min(msg_bytes.len())]), hex(&b2[k.saturating_sub(8)..(k + 12).min(b2.len())]));
                                 if !is_single_item(&b2) { out.viol(format!("real-reject not-single-item p{}", op[1]), format!("payload {} re-encodes to {}", op[1], hex(&b2[..b2.len().min(64)]))); }
                                 match guard(|| pallas_codec::minicbor::decode::<M>(&b2).ok().map(|m2| format!("{:?}", m2))) {
                                     Some(Some(s2)) if s2 == shown => out.cov("real-reject:roundtrips"),
-                                    Some(Some(_)) => out.viol(format!("real-reject roundtrip p{}", op[1]), format!("payload {}: decode(encode(m)) differs from m", op[1])),
-                                    Some(None) => out.viol(format!("real-reject roundtrip p{}", op[1]), format!("payload {}: encode(m) = {}… does not decode", op[1], hex(&b2[..b2.len().min(24)]))),
+                                    Some(Some(_)) => out.viol(format!("real-reject roundtrip p{}", op[1]), format!("payload {}: decode(encode(m)) differs from m; {}", op[1], ctx)),
+                                    Some(None) => out.viol(format!("real-reject roundtrip p{}", op[1]), format!("payload {}: encode(m) does not decode; {}", op[1], ctx)),
                                     None => out.viol(format!("real-reject decode-panic p{}", op[1]), op[1].clone()),
                                 }
                             }
